@@ -15,6 +15,7 @@ CONSTANTS
     Scripts <- MC_ScriptsTyped
     Forms = {"none"}
     Frames = {"in"}
+    Carriers = {"fn", "async_fn", "block"}
     MaxLen = 3
     F2Bug = FALSE
     Emit = TRUE
